@@ -35,6 +35,8 @@ pub struct Case {
     pub scheduled: fn(&mut Wd, u32) -> Vec<SysState>,
     /// Build fresh systems and run them one by one in declared order, `repeats` times.
     pub sequential: fn(&mut Wd, u32) -> Vec<SysState>,
+    /// The same two, on a world without resources (only for schedules whose tasks view none).
+    pub no_resources: Option<(fn(&mut Wd0, u32) -> Vec<SysState>, fn(&mut Wd0, u32) -> Vec<SysState>)>,
 }
 
 #[derive(Clone, Debug, Serialize, Deserialize)]
@@ -55,6 +57,9 @@ pub struct E2Config {
     pub fault: Option<(String, u32)>,
     #[serde(default)]
     pub inline_only: bool,
+    /// Run on `World::new()` (no resources) when the schedule allows it.
+    #[serde(default)]
+    pub no_resources: bool,
 }
 
 #[derive(Clone, Debug, Serialize, Deserialize)]
@@ -110,7 +115,7 @@ pub struct E2Out {
     pub decisions: Vec<u16>,
 }
 
-pub fn make_config(profile: &str, run_seed: u64, thorough: bool, ntasks: usize) -> E2Config {
+pub fn make_config(profile: &str, run_seed: u64, thorough: bool, ntasks: usize, may_have_no_resources: bool) -> E2Config {
     let mut rng = Rng::new(run_seed, 1);
     let num_threads = *rng.pick(&[1usize, 1, 2, 2, 3, 4, 4, 8, 16, 64]);
     let (strategy, strategy_arg) = match rng.below(8) {
@@ -156,6 +161,7 @@ pub fn make_config(profile: &str, run_seed: u64, thorough: bool, ntasks: usize) 
         emptied,
         fault,
         inline_only: cfg!(miri),
+        no_resources: may_have_no_resources && rng.chance(1, 3),
     }
 }
 
@@ -226,20 +232,34 @@ pub fn reference_groups(d: &CaseDesc) -> Vec<Vec<usize>> {
 
 /// Execute one case. Must be called inside an arena run.
 pub fn run_case(case: &Case, cfg: &E2Config, run_seed: u64, decisions: Option<Vec<u16>>) -> E2Out {
+    match (cfg.no_resources, case.no_resources) {
+        (true, Some((scheduled, sequential))) => run_case_on::<Wd0>(case.desc, scheduled, sequential, cfg, run_seed, decisions),
+        _ => run_case_on::<Wd>(case.desc, case.scheduled, case.sequential, cfg, run_seed, decisions),
+    }
+}
+
+fn run_case_on<Wx: SimWorld>(
+    desc: &'static CaseDesc,
+    scheduled: fn(&mut Wx, u32) -> Vec<SysState>,
+    sequential: fn(&mut Wx, u32) -> Vec<SysState>,
+    cfg: &E2Config,
+    run_seed: u64,
+    decisions: Option<Vec<u16>>,
+) -> E2Out {
     let mut out = E2Out::default();
     out.run_seed = run_seed;
     let mut probes: BTreeMap<String, u64> = BTreeMap::new();
     let mut hit = |probes: &mut BTreeMap<String, u64>, k: &str, n: u64| *probes.entry(k.to_string()).or_insert(0) += n;
     let violation = (|| -> Result<(), Viol> {
         // World.
-        let mut w = new_world(run_seed);
+        let mut w = Wx::new_world(run_seed);
         let mut ids: Vec<entity::Identifier> = Vec::new();
         let mut dead: Vec<entity::Identifier> = Vec::new();
         for (i, (mask, n)) in cfg.pop.iter().enumerate() {
-            let got = populate(&mut w, *mask, *n as usize, mix(&[run_seed, i as u64, 0x90]));
+            let got = w.populate(*mask, *n as usize, mix(&[run_seed, i as u64, 0x90]));
             if cfg.emptied.contains(mask) {
                 for id in &got {
-                    w.remove(*id);
+                    w.remove_entity(*id);
                 }
                 dead.extend(got.iter().take(2).copied());
                 hit(&mut probes, "emptied_archetype", 1);
@@ -250,6 +270,9 @@ pub fn run_case(case: &Case, cfg: &E2Config, run_seed: u64, decisions: Option<Ve
         if cfg.pop.is_empty() {
             hit(&mut probes, "world_without_archetypes", 1);
         }
+        if !Wx::HAS_RESOURCES {
+            hit(&mut probes, "world_without_resources", 1);
+        }
         if ids.is_empty() {
             hit(&mut probes, "empty_world", 1);
         } else {
@@ -259,12 +282,12 @@ pub fn run_case(case: &Case, cfg: &E2Config, run_seed: u64, decisions: Option<Ve
         targets.extend(dead);
         set_targets(targets);
         let mut wref = w.clone();
-        let before = snapshot(&mut w).map_err(|e| viol("C05", "payload-integrity", e))?;
-        let before_ref = snapshot(&mut wref).map_err(|e| viol("C05", "payload-integrity", e))?;
+        let before = w.snapshot().map_err(|e| viol("C05", "payload-integrity", e))?;
+        let before_ref = wref.snapshot().map_err(|e| viol("C05", "payload-integrity", e))?;
         if let Some(d) = diff_snapshots(&before, &before_ref) {
             return Err(viol("C10", "clone-content", format!("reference clone differs before the run: {d}")));
         }
-        let ntasks = case.desc.systems.len();
+        let ntasks = desc.systems.len();
         // Scheduled run.
         if let Some((kind, k)) = &cfg.fault {
             let kk = if kind == "system" { fault::Kind::System } else { fault::Kind::ParItem };
@@ -273,7 +296,7 @@ pub fn run_case(case: &Case, cfg: &E2Config, run_seed: u64, decisions: Option<Ve
         }
         sched::begin(sim_config(cfg), run_seed, decisions.clone());
         let prev = arena::set_tag(arena::TAG_SUT);
-        let r = catch_unwind(AssertUnwindSafe(|| (case.scheduled)(&mut w, cfg.repeats)));
+        let r = catch_unwind(AssertUnwindSafe(|| (scheduled)(&mut w, cfg.repeats)));
         arena::set_tag(prev);
         let outcome = sched::end();
         fault::disarm();
@@ -324,7 +347,7 @@ pub fn run_case(case: &Case, cfg: &E2Config, run_seed: u64, decisions: Option<Ve
                         return Err(viol("C17", "sibling-still-running", format!("tasks {open:?} had not finished when the panic reached the caller")));
                     }
                     // The world must still be usable and droppable.
-                    let after = snapshot(&mut w).map_err(|e| viol("C17", "payload-integrity", e))?;
+                    let after = w.snapshot().map_err(|e| viol("C17", "payload-integrity", e))?;
                     if after.len() != before.len() {
                         return Err(viol("C17", "world-damaged", format!("{} entities before the panicking schedule, {} after", before.len(), after.len())));
                     }
@@ -355,7 +378,7 @@ pub fn run_case(case: &Case, cfg: &E2Config, run_seed: u64, decisions: Option<Ve
         // Sequential reference on the clone.
         sched::begin(inline_config(), run_seed, None);
         let prev = arena::set_tag(arena::TAG_SUT);
-        let rr = catch_unwind(AssertUnwindSafe(|| (case.sequential)(&mut wref, cfg.repeats)));
+        let rr = catch_unwind(AssertUnwindSafe(|| (sequential)(&mut wref, cfg.repeats)));
         arena::set_tag(prev);
         let _ = sched::end();
         let ref_states = match rr {
@@ -368,24 +391,24 @@ pub fn run_case(case: &Case, cfg: &E2Config, run_seed: u64, decisions: Option<Ve
         // C07: exactly once, and everything equal to the sequential outcome.
         for (i, s) in states.iter().enumerate() {
             if s.runs != cfg.repeats {
-                return Err(viol("C07", "task-run-count", format!("task {i} of schedule {} ran {} time(s) in {} run_schedule call(s)", case.desc.name, s.runs, cfg.repeats)));
+                return Err(viol("C07", "task-run-count", format!("task {i} of schedule {} ran {} time(s) in {} run_schedule call(s)", desc.name, s.runs, cfg.repeats)));
             }
         }
-        let after = snapshot(&mut w).map_err(|e| viol("C05", "payload-integrity", e))?;
-        let after_ref = snapshot(&mut wref).map_err(|e| viol("C05", "payload-integrity", e))?;
+        let after = w.snapshot().map_err(|e| viol("C05", "payload-integrity", e))?;
+        let after_ref = wref.snapshot().map_err(|e| viol("C05", "payload-integrity", e))?;
         if let Some(d) = diff_snapshots(&after, &after_ref) {
-            return Err(viol("C07", "differs-from-sequential", format!("schedule {}: world differs from sequential execution: {d}", case.desc.name)));
+            return Err(viol("C07", "differs-from-sequential", format!("schedule {}: world differs from sequential execution: {d}", desc.name)));
         }
-        let (rv, rvr) = (resource_vals(&w), resource_vals(&wref));
+        let (rv, rvr) = (w.resource_vals(), wref.resource_vals());
         if rv != rvr {
-            return Err(viol("C07", "differs-from-sequential", format!("schedule {}: resources {rv:x?} differ from sequential execution {rvr:x?}", case.desc.name)));
+            return Err(viol("C07", "differs-from-sequential", format!("schedule {}: resources {rv:x?} differ from sequential execution {rvr:x?}", desc.name)));
         }
         for i in 0..ntasks {
             if states[i] != ref_states[i] {
                 return Err(viol(
                     "C07",
                     "differs-from-sequential",
-                    format!("schedule {}: state of task {i} is {:x?}, sequential execution gives {:x?}", case.desc.name, states[i], ref_states[i]),
+                    format!("schedule {}: state of task {i} is {:x?}, sequential execution gives {:x?}", desc.name, states[i], ref_states[i]),
                 ));
             }
         }
@@ -425,7 +448,7 @@ pub fn run_case(case: &Case, cfg: &E2Config, run_seed: u64, decisions: Option<Ve
                             "conflicting-tasks-overlap",
                             format!(
                                 "schedule {}: task {} ({}) and task {} ({}) can both reach {} at {addr:#x} and were forked so that they may run at the same time (strands {:?} and {:?})",
-                                case.desc.name,
+                                desc.name,
                                 x.0,
                                 if x.1 { "writes" } else { "reads" },
                                 y.0,
@@ -456,7 +479,7 @@ pub fn run_case(case: &Case, cfg: &E2Config, run_seed: u64, decisions: Option<Ve
             hit(&mut probes, "tasks_interleaved_in_time", 1);
         }
         // C12: tasks of one reference group must be logically parallel (strict on an empty world).
-        let groups = reference_groups(case.desc);
+        let groups = reference_groups(desc);
         let first_span = |t: usize| outcome.spans.iter().find(|s| s.task as usize == t);
         let mut add_on_seen = false;
         for (gi, g) in groups.iter().enumerate() {
@@ -488,7 +511,7 @@ pub fn run_case(case: &Case, cfg: &E2Config, run_seed: u64, decisions: Option<Ve
                             "independent-tasks-serialised",
                             format!(
                                 "schedule {}: tasks {} and {} have no conflicting component or resource access and are adjacent in one greedy group {:?}, but were placed so that they can never run at the same time (strands {:?} / {:?}; world {})",
-                                case.desc.name,
+                                desc.name,
                                 g[x],
                                 g[y],
                                 g,
@@ -656,7 +679,7 @@ pub fn main_with(engine: &str, cases: &[Case]) {
         let mut ph = simcore::rng::Fnv::default();
         ph.bytes(profile.as_bytes());
         let rs = mix(&[case_seed(seed, engine, idx), ph.0]);
-        let cfg = make_config(&profile, rs, thorough, cases[case].desc.systems.len());
+        let cfg = make_config(&profile, rs, thorough, cases[case].desc.systems.len(), cases[case].no_resources.is_some());
         (case, rs, cfg)
     };
     match cmd.as_str() {
